@@ -113,9 +113,9 @@ assign_special_mpq(mpq_class& v, Result_Class c, Rounding_Dir) {
     if (Policy::has_nan) {
       v.get_num() = 0;
       v.get_den() = 0;
-      return V_NAN | V_UNREPRESENTABLE;
+      return V_NAN;
     }
-    return V_NAN;
+    return V_NAN | V_UNREPRESENTABLE;
   case VC_MINUS_INFINITY:
     if (Policy::has_infinity) {
       v.get_num() = -1;
